@@ -157,6 +157,9 @@ def run(ck, rng, tier):
             M = [[1e4 * (1 + b) + 1e-2 * rng.gauss(0, 1) for b in range(n)] for a in range(m)]
         elif rng.random() < 0.2 and m > 2:
             M[rng.randrange(1, m)][rng.randrange(n)] = MISSING
+        if m > 1 and n > 0 and _ % 4 == 1 and not any(MISSING in r for r in M):
+            M[rng.randrange(m)][rng.randrange(n)] = 0.0       # an exact zero among the observations (sparse / count data)
+            M[rng.randrange(m)][rng.randrange(n)] = 0.0
         inp.append("unary %s" % vf.fmt_mat(M, n))
         meta.append(("unary", (m, n), M))
         key = rng.randrange(n)
@@ -275,6 +278,23 @@ def run(ck, rng, tier):
             if not any(MISSING in r for r in M):
                 if o["transpose"] != [[M[a][b] for a in range(m)] for b in range(n)]:
                     direct_fail[i] = ("MatrixTranspose", "value", "transpose mismatch")
+                if m > 1 and "descstat" in o:
+                    # complete data (no missing cell): mean, median, population / sample variance, min, max and the zero count of every
+                    # column — exact zeros are ordinary observations
+                    DS = o["descstat"]
+                    for b_ in range(n):
+                        colv = [M[a][b_] for a in range(m)]
+                        mu_ = sum(Fraction(x) for x in colv) / m
+                        ssq = sum((Fraction(x) - mu_) ** 2 for x in colv)
+                        sc_ = max(1e-300, max(abs(x) for x in colv))
+                        srt = sorted(colv)
+                        med = srt[m // 2] if m % 2 else (srt[m // 2] + srt[m // 2 - 1]) / 2.0
+                        want = {0: float(mu_), 1: med, 3: float(ssq / m), 4: float(ssq / (m - 1)), 9: min(colv), 10: max(colv),
+                                11: float(sum(1 for x in colv if abs(x) < 1e-6)), 12: 0.0}
+                        for q_, w_ in want.items():
+                            tol_ = 1e-9 * (sc_ ** 2 if q_ in (3, 4) else sc_) * (m + 4)
+                            if len(DS) != n or len(DS[b_]) != 13 or not (abs(DS[b_][q_] - w_) <= tol_):
+                                direct_fail[i] = ("MatrixColDescStat", "value", "column %d, statistic %d: %r, the definition gives %r" % (b_, q_, DS[b_][q_] if len(DS) == n and len(DS[b_]) == 13 else None, w_))
                 if m == n:
                     ex = sum(Fraction(M[a][a]) for a in range(m))
                     ab = sum(abs(Fraction(M[a][a])) for a in range(m))
